@@ -319,19 +319,19 @@ func runCheck(prop, tier string, noReplay bool) int {
 		"seed":        gCfg.Seed,
 		"level":       "model_checking",
 		"coverage": map[string]interface{}{
-			"states":                        max64(states, 1),
-			"transitions":                   max64(transitions, 1),
-			"traces_validated_against_impl": selfN + len(todo),
-			"samples":                       samples,
-			"explanation":                   "bounded symbolic execution of the repository's go/ssa with an SMT solver deciding every branch feasibility, assertion and panic obligation; states = feasible paths explored (incl. paths cut by a stated bound), transitions = symbolic branch decisions that forked",
-			"obligations":                   obligations,
-			"discharged":                    discharged,
+			"states":                           max64(states, 1),
+			"transitions":                      max64(transitions, 1),
+			"traces_validated_against_impl":    selfN + len(todo),
+			"samples":                          samples,
+			"explanation":                      "bounded symbolic execution of the repository's go/ssa with an SMT solver deciding every branch feasibility, assertion and panic obligation; states = feasible paths explored (incl. paths cut by a stated bound), transitions = symbolic branch decisions that forked",
+			"obligations":                      obligations,
+			"discharged":                       discharged,
 			"obligations_folded_syntactically": folded,
-			"panic_obligations_needing_solver":  panicChecks,
-			"functions_encoded":             fnames,
-			"jobs":                          jobSummaries,
-			"bounds":                        ps.Bounds,
-			"unwinding_assumed":             unwinding,
+			"panic_obligations_needing_solver": panicChecks,
+			"functions_encoded":                fnames,
+			"jobs":                             jobSummaries,
+			"bounds":                           ps.Bounds,
+			"unwinding_assumed":                unwinding,
 			"solver": map[string]interface{}{"queries": gStats.Queries, "cache_hits": gStats.CacheHits, "sat": gStats.Sat, "unsat": gStats.Unsat, "unknown": gStats.Unknown, "errors": gStats.Errors,
 				"cvc5_queries": gStats.Cvc5Queries, "solver_time_s": float64(gStats.Nanos) / 1e9, "slowest_query_ms": gStats.SlowestMs, "solvers": []string{"z3 4.8.12 (incremental for Bool/BV, fresh context for FP)", "cvc5 1.0 (fallback for FP)"}},
 			"timing_s":              map[string]float64{"load_and_init": loadT.Seconds(), "explore": exploreT.Seconds(), "replay": replayT.Seconds()},
